@@ -2,7 +2,7 @@
 """Regenerates /verif/MANIFEST.json (kept in one place so that it stays consistent)."""
 import json, os
 V = os.path.dirname(os.path.dirname(os.path.abspath(__file__)))
-hooks = ["a3da739", "851a7e6", "5d948ff", "577277c", "3d14048", "62eb807", "4368ae8", "ed2eb1c", "28dddd9", "2a22471"]
+hooks = ["a3da739", "851a7e6", "5d948ff", "577277c", "3d14048", "62eb807", "4368ae8", "ed2eb1c", "28dddd9", "2a22471", "b6551bd"]
 
 def chk(pid, text, note, tech, eng="dsim", level="exploration"):
     return {
@@ -63,7 +63,7 @@ for i in range(1, 20):
         na.append({"property_id": pid, "reason": "check not integrated yet in this revision (see DESIGN.md 4)"})
 engines = [
  {"name": "dsim", "path": "/verif/sim/dsim", "serves_properties": [c["property_id"] for c in checks if c["engine"] == "dsim"], "kind_free_text": "E1: one OS thread per run, corosensei coroutines as virtual threads, seeded controller owning scheduling, virtual time (tokio paused clock), gates, cancellation, spurious polls, simulated blocking pool"},
- {"name": "netsim-pg", "path": "/verif/sim/netsim-pg", "serves_properties": ["C16"], "kind_free_text": "E2: current_thread tokio with paused clock, duplex transport, scripted PostgreSQL server with fault script"},
+ {"name": "netsim-pg", "path": "/verif/sim/netsim-pg", "serves_properties": ["C16"], "kind_free_text": "E2: current_thread tokio with paused clock, duplex transport, scripted PostgreSQL server with fault script; plus a thread-level half on the E1 engine (coroutines + seeded controller) for the statement cache and the cache registry"},
  {"name": "netsim-redis", "path": "/verif/sim/netsim-redis", "serves_properties": ["C17"], "kind_free_text": "E2: current_thread tokio with paused clock, duplex transport via guarded connector seam, scripted RESP server"},
 ]
 if "C15" in claimed:
@@ -82,7 +82,7 @@ m = {
  "checks": checks,
  "not_applicable": na,
  "notes": ("See DESIGN.md. Exit 2 = harness error (build failure, nondeterministic replay). All hook commits only add lines "
-           "under #[cfg(deadpool_verif)], except ed2eb1c, 28dddd9 and the clock seam commit, which split the imports of Mutex, Semaphore, Instant (pools) and Arc (deadpool-sync) off their use lists "
+           "under #[cfg(deadpool_verif)], except ed2eb1c, 28dddd9, 2a22471 and b6551bd, which split the imports of Mutex, Semaphore, Instant (pools), Arc (deadpool-sync) and Mutex, RwLock (deadpool-postgres statement cache) off their use lists "
            "and make them cfg-selected (shim types under the guard, the same std/tokio types without it) - hence add_only=false. "
            "Known findings: /verif/known_findings.json (all entries fixed by 'fix:' commits in /repo)."),
 }
